@@ -542,6 +542,9 @@ fn v6pool() -> Vec<Pfx> {
         "::/0",
         "2001:db8::1/128",
         "2001:db8:0:1::/64",
+        // IPv4-mapped: the model's server writes these in the mixed notation `::ffff:198.51.100.0/120`
+        "::ffff:198.51.100.0/120",
+        "::ffff:192.0.2.128/121",
         "fc00::/7",
     ]
     .iter()
